@@ -126,9 +126,11 @@ class ValueSpecBase(ValueSpec):
     # Reset frozen after setting the default value.
     self._frozen = frozen
 
-  @functools.cached_property
+  @property
   def skip_user_transform(self) -> 'ValueSpec':
     """Returns a value spec of this without transform."""
+    # NOTE: not cached: a spec may still be narrowed in place (`extend`,
+    # `noneable`, `set_default`, `freeze`) after it was first applied.
     if self._transform is None:
       return self
     spec_without_transform = copy.copy(self)
